@@ -399,12 +399,6 @@ class Consumer(object):
         self._shuttingdown = True
         # Keep track of state for debugging
         self._state = "shutting down"
-        # TODO: This was added as part of coordinated consumer support,
-        # but it belongs in the constructor if it is even necessary.
-        # don't let commit requests retry forever and prevent shutdown
-        if not self.request_retry_max_attempts:
-            self.request_retry_max_attempts = 2
-
         # Create a deferred to track the shutdown
         self._shutdown_d = d = Deferred()
 
@@ -783,13 +777,17 @@ class Consumer(object):
             self._deliver_commit_result(failure)
             return
 
-        # Do we need to abort?
-        if self.request_retry_max_attempts != 0 and attempt >= self.request_retry_max_attempts:
+        # Do we need to abort? While shutting down, don't let commit requests
+        # retry forever and prevent shutdown
+        max_attempts = self.request_retry_max_attempts
+        if not max_attempts and self._shuttingdown:
+            max_attempts = 2
+        if max_attempts != 0 and attempt >= max_attempts:
             log.debug(
                 "%r: Failed to commit offset %s %d times: out of retries",
                 self,
                 commit_offset,
-                self.request_retry_max_attempts,
+                max_attempts,
                 exc_info=(failure.type, failure.value, failure.getTracebackObject()),
             )
             return self._deliver_commit_result(failure)
